@@ -49,6 +49,11 @@ Proof. exact (cli_fixed_points letter digit space upper keywords_tab up_plain up
 Theorem C17_cli_fix_idempotent : forall t, i_cli_fix (i_cli_fix t) = i_cli_fix t.
 Proof. exact (cli_fix_idempotent letter digit space upper keywords_tab up_plain up_letter up_idem up_nows sp_nodelim (proj1 space_32_9)). Qed.
 
+(* formatting a formatted document changes nothing (textDocument/formatting, every option setting) *)
+Theorem C17_format_idempotent : forall tab spaces final t,
+  i_format tab spaces final (i_format tab spaces final t) = i_format tab spaces final t.
+Proof. exact (format_idempotent space upper sp_nodelim (proj1 space_32_9) (proj1 (proj2 space_32_9))). Qed.
+
 (* ---- re-lint: no violation of the rule remains after its fix ---- *)
 Theorem C17_l001_fix_clears : forall t, l001_check (l001_fix t) = [].
 Proof. exact l001_fix_clears. Qed.
@@ -105,6 +110,7 @@ Print Assumptions C17_l010_fix_idempotent.
 Print Assumptions C17_l007_fix_idempotent.
 Print Assumptions C17_cli_fixed_points.
 Print Assumptions C17_cli_fix_idempotent.
+Print Assumptions C17_format_idempotent.
 Print Assumptions C17_l001_fix_clears.
 Print Assumptions C17_l002_fix_clears.
 Print Assumptions C17_l003_fix_clears.
